@@ -510,13 +510,15 @@ func storeKey(addr ssa.Value) (string, types.Type, bool) {
 		}
 	case *ssa.Alloc:
 		t := a.Type().(*types.Pointer).Elem()
-		return heapKeyObj(t), t, true
+		k, ht := heapKeyForObj(t)
+		return k, ht, true
 	case *ssa.Global:
 		t := a.Type().(*types.Pointer).Elem()
 		return heapKeyGlobal(a.Pkg.Pkg.Path() + "." + a.Name()), t, false
 	}
 	t := addr.Type().Underlying().(*types.Pointer).Elem()
-	return heapKeyObj(t), t, false
+	k, ht := heapKeyForObj(t)
+	return k, ht, false
 }
 
 // loopMods: heap targets written inside a loop.
